@@ -81,7 +81,7 @@ def fancy_ref_jobs(pred, n):
     if not os.path.exists(cpath):
         import e3
         wd = workdir("fancygen-cache-%d" % os.getpid())       # (two checks may start at the same time)
-        p, _ = e3.generate(wd, "FancyGen", {"Size": 1}, timeout=1800, mem="8g")
+        p, _ = e3.generate_fancy(wd, 1, timeout=1800)
         os.replace(p, cpath)
         shutil.rmtree(wd, ignore_errors=True)
     # spread the sample over the kinds of source programs (which item types, which repeat modes, absorbing or not), not over their number
